@@ -75,6 +75,15 @@ def c17(m, h, i, s):
                 recv = d == "A"
                 if (recv and qd < lim) or (not recv and qd > lim):
                     m.hit("limit-rejects", h, i)
+                elif i + 1 < len(h.steps):
+                    # the quote satisfies the limit, yet the swap was refused: the harness retries the same swap
+                    # without the limit on the unchanged state; if that executes, the limit was the reason
+                    nx = h.steps[i + 1]
+                    same = nx.toks[:6] == s.toks[:6] and int(nx.toks[6]) == 0 and nx.toks[7:] == s.toks[7:]
+                    if same and nx.ok:
+                        m.bad(h, i, "acceptable_limit_rejected", f"swap refused at limit {lim} although it executes at {qd} ({'receives' if recv else 'pays'})")
+                    elif same:
+                        m.hit("limit-ok-refused-for-another-reason", h, i)
     elif s.kind == "eng" and s.ok and s.verb() in ("open", "close"):
         # the engine passes the caller's limit unchanged (open/increase/reduce, whole close)
         lim = int(s.toks[8]) if s.verb() == "open" else int(s.toks[5])
